@@ -31,12 +31,12 @@ def configs(tier, seed):
     s = 100 * seed
     std = [
         {"name": "std-default", "kwargs": {"nlive": 50}},
-        {"name": "std-capped", "kwargs": {"nlive": 50, "max_iteration": 40}},
+        {"name": "std-capped", "prior": "gauss", "kwargs": {"nlive": 50, "max_iteration": 40}},
         {"name": "std-offset-1e4", "offset": 1.0e4, "kwargs": {"nlive": 50}},
         {"name": "std-flow-t", "sharp": 6.0,
          "kwargs": {"nlive": 80, "maximum_uninformed": 80, "shrinkage_expectation": "t", "training_frequency": 80}},
         # the same questions about a run that died after a checkpoint and was resumed, twice, across the switch to the flow
-        {"name": "std-resumed", "sharp": 4.0, "resume_after": [40, 130], "checkpoint_interval": 5,
+        {"name": "std-resumed", "sharp": 4.0, "resume_after": [40, 130], "checkpoint_interval": 5, "resume_finished": True,
          "kwargs": {"nlive": 60, "maximum_uninformed": 60, "training_frequency": 60}},
     ]
     ins = [
@@ -49,7 +49,9 @@ def configs(tier, seed):
          "kwargs": {"nlive": 60, "max_iteration": 3, "min_samples": 20, "min_remove": 2}},
         {"name": "ins-offset-m2000", "ins": True, "offset": -2000.0,
          "kwargs": {"nlive": 60, "max_iteration": 3, "min_samples": 20, "min_remove": 2}},
-        {"name": "ins-resumed", "ins": True, "resume_after": [1, 2],
+        {"name": "ins-gaussprior", "ins": True, "prior": "gauss",
+         "kwargs": {"nlive": 60, "max_iteration": 3, "min_samples": 20, "min_remove": 2}},
+        {"name": "ins-resumed", "ins": True, "resume_after": [1, 2], "resume_finished": True,
          "kwargs": {"nlive": 60, "max_iteration": 4, "min_samples": 20, "min_remove": 2}},
         {"name": "ins-strict-replace", "ins": True,
          "kwargs": {"nlive": 60, "max_iteration": 3, "min_samples": 20, "min_remove": 2, "strict_threshold": True,
@@ -71,7 +73,7 @@ def configs(tier, seed):
              "kwargs": {"nlive": 80, "max_iteration": 5, "min_samples": 30, "min_remove": 2, "reparameterisation": None}},
             # run(redraw_samples=True) cannot complete on the current tree (open finding of C20:
             # ImportanceFlowProposal.unnormalised_weights is never assigned), so there is no completed run to check
-            {"name": "ins-resumed-no-iid-savelogq", "ins": True, "resume_after": [2, 4],
+            {"name": "ins-resumed-no-iid-savelogq", "ins": True, "resume_after": [2, 4], "resume_finished": True,
              "kwargs": {"nlive": 80, "max_iteration": 6, "min_samples": 30, "min_remove": 2, "draw_iid_live": False, "save_log_q": True}},
             {"name": "ins-no-iid-tol", "ins": True,
              "kwargs": {"nlive": 80, "max_iteration": 6, "min_samples": 30, "min_remove": 2, "draw_iid_live": False,
@@ -153,7 +155,7 @@ def check_std(chk, cfg, r, c02_cases, err_cases):
     if len(r["birth"]) != n_ret or not all(b < l for b, l in zip(r["birth"], S["logL"])):
         bad = [(i, b, l) for i, (b, l) in enumerate(zip(r["birth"], S["logL"])) if not b < l][:3]
         fails.append(("C05:std-birth", f"birth likelihood not strictly below the sample's likelihood at {bad}"))
-    if len(r.get("resumed_at", [])) != len(cfg.get("resume_after", [])):
+    if len(r.get("resumed_at", [])) != len(cfg.get("resume_after", [])) + (1 if cfg.get("resume_finished") else 0):
         fails.append(("C05:std-resume-did-not-happen", f"resumed at {r.get('resumed_at')} for the requested stops {cfg.get('resume_after')}"))
     if r.get("unstable"):
         fails.append(("C05:std-read-mutates", f"reported results changed after merely reading the public properties of the sampler: {r['unstable'][:6]}"))
@@ -198,7 +200,7 @@ def check_ins(chk, cfg, r, ins_cases):
     S = r["samples"]
     n_ret, total = len(S["logL"]), sum(r["counts"].values())
     fails = []
-    if len(r.get("resumed_at", [])) != len(cfg.get("resume_after", [])):
+    if len(r.get("resumed_at", [])) != len(cfg.get("resume_after", [])) + (1 if cfg.get("resume_finished") else 0):
         fails.append(("C05:ins-resume-did-not-happen", f"resumed at {r.get('resumed_at')} for the requested stops {cfg.get('resume_after')}"))
     if r.get("unstable"):
         fails.append(("C05:ins-read-mutates", f"reported results changed after merely reading the public properties of the sampler: {r['unstable'][:6]}"))
@@ -218,6 +220,10 @@ def check_ins(chk, cfg, r, ins_cases):
             fails.append(("C05:ins-dict", "result dictionary, FlowSampler and sampler object report different evidence / error / weights / samples"))
     if any(a > b for a, b in zip(S["logL"], S["logL"][1:])):
         fails.append(("C05:ins-order", "returned samples are not in ascending likelihood order"))
+    if "logP_re" in r and not all(close(a, b) for a, b in zip(S["logP"], r["logP_re"])):
+        bad = [(i, a, b) for i, (a, b) in enumerate(zip(S["logP"], r["logP_re"])) if not close(a, b)][:3]
+        fails.append(("C05:ins-model-logP", f"stored logP differs from the model's log-prior at the sample for {sum(1 for a, b in zip(S['logP'], r['logP_re']) if not close(a, b))} "
+                      f"of {len(S['logP'])} returned samples, e.g. {bad}"))
     if not all(close(a, b) for a, b in zip(S["logL"], r["logL_re"])):
         fails.append(("C05:ins-model", "stored logL differs from the model evaluated at the physical point"))
     chk.oracle_validations += n_ret
